@@ -344,9 +344,49 @@ def keep_flags(recs, prop):
             r["flags"] = {k: v for k, v in r["flags"].items() if k.split("_")[0] in mine}
 
 
+def coverage(cases):
+    """Bookkeeping, not a verdict: how often the situations the histories exist for actually occur.  A family
+    that silently shrank to nothing would make the check vacuous (machinery failure)."""
+    cov = {"wide_table_dimension_before_table": 0, "supplied_edges_not_in_sorted_order": 0, "supplied_edge_ends_flipped": 0,
+           "edge_face_stored_before_selection": 0, "node_face_stored_before_selection": 0, "selection_by_node": 0, "selection_by_edge": 0,
+           "dual_of_selected_grid": 0, "mpas_nonzero_padding_mixed_sizes": 0, "mpas_absent_cell_leading_slot": 0, "supplied_via_ugrid_dataset": 0}
+    for c in cases:
+        names = [s[1] for s in c["hist"]]
+        kinds = [s[0] for s in c["hist"]]
+        wide = c["mesh"] and c["width"] > max(len(f) for f in c["mesh"])
+        if wide and "n_max_face_edges" in names and "fe" in names and names.index("n_max_face_edges") < names.index("fe") \
+                and ("select" not in kinds or names.index("n_max_face_edges") < kinds.index("select")):
+            cov["wide_table_dimension_before_table"] += 1
+        en = c.get("sup", {}).get("en")
+        if en:
+            keys = [(min(r), max(r)) for r in en]
+            cov["supplied_edges_not_in_sorted_order"] += keys != sorted(keys)
+            cov["supplied_edge_ends_flipped"] += any(r[0] > r[1] for r in en)
+            cov["supplied_via_ugrid_dataset"] += c["via"].startswith("ugrid")
+        if "select" in kinds:
+            k = kinds.index("select")
+            pre = names[:k]
+            cov["edge_face_stored_before_selection"] += any(x in pre for x in ("ef", "ff", "holes", "n_max_face_faces")) or "ef" in c.get("sup", {})
+            cov["node_face_stored_before_selection"] += any(x in pre for x in ("nf", "n_max_node_faces")) or "nf" in c.get("sup", {})
+            cov["selection_by_node"] += names[k] == "n_node"
+            cov["selection_by_edge"] += names[k] == "n_edge"
+            cov["dual_of_selected_grid"] += "dual" in kinds
+        d = c.get("mpasd")
+        if d and c["mesh"]:
+            mixed = len({len(f) for f in c["mesh"]}) > 1 or d["wide"] > 0
+            cov["mpas_nonzero_padding_mixed_sizes"] += d["pad"] != "zero" and mixed
+            cov["mpas_absent_cell_leading_slot"] += d["covz"] == "front" or d["coez"] == "first"
+    return {k: int(v) for k, v in cov.items()}
+
+
 def run_histories(ctx, prop, cases, reqs):
     sources = build_sources(ctx, reqs) if reqs else {}
     attach_sources(cases, reqs, sources)
+    cov = coverage(cases)
+    ctx.note("history_coverage", cov)
+    empty = [k for k, v in cov.items() if v == 0]
+    if empty:
+        raise Machinery("history families are vacuous for: %s" % ", ".join(empty))
     for c in cases:
         c["workdir"] = ctx.work
     recs = [r for rs in replay_many(cases) for r in rs]
